@@ -16,7 +16,8 @@ def _line(b):
 
 
 def corpus():
-    return [_line(b) for b in boundary_bundles()]
+    # + sizes the model cannot evaluate (65536+ array elements, blocks beyond 64 KiB): implementation against the reference encoder
+    return [_line(b) for b in boundary_bundles()] + genb.BIG_CASES
 
 
 def cases(rng, tier):
@@ -24,6 +25,8 @@ def cases(rng, tier):
 
 
 def oracle(line, out, mode):
+    if line.startswith("RTBIG "):
+        return genb.judge_rtbig(line, out)
     if not out.startswith("OK "):
         return "encode/decode does not complete: %s" % out[:40]
     b = genb.parse_bundle_line(line[3:])
@@ -48,7 +51,7 @@ def oracle(line, out, mode):
 
 
 def same(line, io, mo):
-    return False
+    return line.startswith("RTBIG ")     # implementation only (the model prints NA); judged by the oracle against the reference encoder
 
 
 def classify(line, out):
@@ -66,6 +69,8 @@ def search_cases(rng, tier, breaks):
 
 def shrink(v, run):
     """drop blocks while the failure persists"""
+    if not v["case_line"].startswith("RT "):
+        return v
     b = genb.parse_bundle_line(v["case_line"][3:])
     changed = True
     while changed and len(b["cs"]) > 1:
